@@ -5,8 +5,8 @@ import driver as D
 MC_ASSUME = ["go toolchain and runtime", "verif/mc engines (sched, report)", "the reference model / oracle written for this check"]
 
 
-def replay_run(binary, gen, replay, extra=()):
-    p = subprocess.run([binary, "-gen", gen, "-replay", replay] + list(extra), env=D.goenv())
+def replay_run(binary, gen, replay, extra=(), env=None):
+    p = subprocess.run([binary, "-gen", gen, "-replay", replay] + list(extra), env=dict(D.goenv(), **(env or {})))
     return p.returncode
 
 
@@ -41,8 +41,14 @@ def build_c19(sc, gen):
     mod = D.make_module(sc, gen, "c19")
     repl = {}
     od = D.overlay_add(sc, gen, repl, "d2/verif_export.go", os.path.join(D.VERIF, "overlay", "d2", "verif_export.go"), name="ov19")
+    # the selection walks Go maps twice per call: their iteration order is owned through the runtime overlay
+    import c12
+    repl.update(json.load(open(c12.maprot_overlay(sc)))["Replace"])
     ov = D.write_overlay(od, repl)
     return D.go_build(mod, os.path.join(mod, "h"), overlay=ov)
+
+
+C19_MAPROT = {"VERIF_MAPROT": "3"}
 
 
 def C19(sc, tier, replay, t0):
@@ -51,14 +57,14 @@ def C19(sc, tier, replay, t0):
     for gen in gens:
         binary = build_c19(sc, gen)
         if replay:
-            return replay_run(binary, gen, replay)
-        reports += D.run_shards(binary, gen, tier, max(1, D.NCPU // len(gens)), os.path.join(sc.dir, "out"),
+            return replay_run(binary, gen, replay, env=C19_MAPROT)
+        reports += D.run_shards(binary, gen, tier, max(1, D.NCPU // len(gens)), os.path.join(sc.dir, "out"), env=C19_MAPROT,
                                 deadline=(3000 if tier == "thorough" else 600))
     merged = D.merge_reports(reports)
     return D.finish("C19", tier, "model_checking", merged, t0,
         rule="explicit enumeration of every ZooKeeper event history up to the stated length over 3 znodes, each replayed on a fresh snapshot chain through the real handleUriUpdate (function level) and through the real waitForUriUpdates/waitForServiceUpdates loops + ResolveHostnameAndContextForQuery (client level), compared with a reference fold after every event, with every earlier snapshot re-compared to the copy taken when it was handed out; selection: every announcement set x priority list x scripted RNG answer on a grid; states = distinct fold contents / announcement sets, transitions = handler or chooseHost calls; a class is (family, history length | selection outcome kind)",
         assumptions=["D2 is driven below ZooKeeper: events are injected at handleUriUpdate / the wait loops; treecache.go and the zk connection are not exercised",
-                     "Go map iteration order is not controllable: the per-draw selection oracle accepts the choice of any iteration order; the r=0 draw is repeated 24x on fresh maps",
+                     "Go map iteration order is owned through the runtime overlay (lib/c12.py maprot_overlay, one fixed iteration start per process, hash seeds fixed): the announcement maps are walked in the same order by both passes of a selection and by every call, which the client-level completeness clause (every eligible host with weight > 0 is returned for some draw of the 16-point grid) relies on; the per-draw selection oracle still accepts the choice of any order",
                      "history length and announcement-set size bounds as in sub_checks.bounds"],
         trusted_base=MC_ASSUME + ["in-package export file overlay/d2/verif_export.go (forwards only)", "scripted rand.Source"])
 
